@@ -11,6 +11,7 @@ import (
 
 	"google.golang.org/protobuf/proto"
 
+	"verif/internal/backend"
 	"verif/internal/mon"
 )
 
@@ -363,6 +364,8 @@ type gen struct {
 	r        *mon.Run
 	hub      *hub
 	ctl      *env
+	be       *backend.Backend
+	ctlProxy *env // unlimited control mux in front of the back-end
 	n        int
 	maxAlloc uint64
 }
@@ -388,7 +391,7 @@ func (g *gen) observe(e *env, c *Case) (*outcome, liveSnap) {
 	lv := g.hub.add(c)
 	out := e.exec(c)
 	s := lv.snap()
-	if c.Transport != "inproc" && s.Entered > 0 && !s.Returned {
+	if (c.Transport != "inproc" || c.Proxied) && s.Entered > 0 && !s.Returned {
 		// the handler of a socket server may still be finishing
 		for i := 0; i < 2000 && !s.Returned; i++ {
 			time.Sleep(time.Millisecond)
@@ -438,7 +441,11 @@ func (g *gen) run(e *env, c *Case) {
 			// difference is unlimited message sizes decides
 			cc := *c
 			cc.ID = c.ID + "~ctl"
-			cout, cs := g.observe(g.ctl, &cc)
+			ctl := g.ctl
+			if c.Proxied {
+				ctl = g.ctlProxy
+			}
+			cout, cs := g.observe(ctl, &cc)
 			cv := evaluate(&cc, cout, cs)
 			r.Count("control_runs", 1)
 			if !cv.anomaly && cv.entered && cout.Status != "error" {
@@ -565,7 +572,7 @@ func socketLanes() []laneSpec {
 
 func (g *gen) newCase(e *env, l laneSpec, kind, class string) *Case {
 	return &Case{ID: g.nextID(), Lrecv: e.lrecv, Lsend: e.lsend, Proto: l.proto, Codec: l.codec, Gzip: l.gz, Shape: l.shape,
-		Transport: l.transport, Kind: kind, Class: class, Frag: l.frag, EOFWithData: l.eofData, NRead: 1}
+		Transport: l.transport, Kind: kind, Class: class, Frag: l.frag, EOFWithData: l.eofData, NRead: 1, Proxied: e.proxied}
 }
 
 func hasReqProbe(shape string) bool {
@@ -620,13 +627,33 @@ func filler(l laneSpec, L int, i int, probe []byte, p padder) []byte {
 	return nil
 }
 
+func bodyLen(c *Case) int {
+	n := 0
+	for _, m := range c.Reqs {
+		n += len(m)
+	}
+	return n
+}
+
 // runModes runs a request-probe case and, on the in-process gRPC-family
 // lanes, the same messages again with every per-message flag mode that is
 // independent of the stream-level encoding header.
 func (g *gen) runModes(e *env, l laneSpec, c *Case) {
 	g.run(e, c)
+	if c.Proto == "http" && !c.EOFWithData && (c.Shape == "unary" || c.Shape == "uploadu" || c.Shape == "cs") && bodyLen(c) > 0 {
+		// the same body without a declared length
+		cc := *c
+		cc.ID, cc.UnknownLen = g.nextID(), true
+		g.run(e, &cc)
+	}
 	if c.Transport != "inproc" {
 		return
+	}
+	if c.Proto == "http" && c.Shape == "unary" && c.Codec != "httpbody" && c.Msg == "" && !c.Gzip && !c.EOFWithData {
+		// the same body on the route that also binds a field from the URL
+		cc := *c
+		cc.ID, cc.URLTag = g.nextID(), "u7"
+		g.run(e, &cc)
 	}
 	if c.Gzip {
 		// the same compressed payloads built as multi-member gzip, and
@@ -669,6 +696,9 @@ func (g *gen) reqProbes(e *env, l laneSpec, rng *rand.Rand, sizes map[string]int
 	for _, class := range order {
 		n := sizes[class]
 		if n < 0 {
+			continue
+		}
+		if class == "L+2" && !(l.proto == "http" && (l.shape == "unary" || l.shape == "uploadu")) {
 			continue
 		}
 		nonFirstOnly := class == "3L/4"
@@ -910,8 +940,9 @@ func (g *gen) truncProbes(e *env, l laneSpec, rng *rand.Rand, with10L bool) {
 
 func (g *gen) matrix(e *env, seed int, lanes []laneSpec, withPrefix bool) {
 	L := e.lrecvEff()
-	sizes := map[string]int{"L-1": L - 1, "L": L, "L+1": L + 1, "10L": 10 * L, "3L/4": 3 * L / 4}
-	order := []string{"L-1", "L", "L+1", "10L", "3L/4"} // 3L/4: non-first positions of HTTP streams only
+	sizes := map[string]int{"L-1": L - 1, "L": L, "L+1": L + 1, "10L": 10 * L, "3L/4": 3 * L / 4, "L+2": L + 2}
+	// 3L/4: non-first positions of HTTP streams only; L+2: unary HTTP only
+	order := []string{"L-1", "L", "L+1", "L+2", "10L", "3L/4"}
 	for _, l := range lanes {
 		rng := g.r.Rand(fmt.Sprintf("payload/%d/%d/%d/%s/%s/%v/%s/%s/%d/%v", seed, e.lrecv, e.lsend, l.proto, l.codec, l.gz, l.shape, l.transport, l.frag, l.eofData))
 		if hasReqProbe(l.shape) {
@@ -922,6 +953,42 @@ func (g *gen) matrix(e *env, seed int, lanes []laneSpec, withPrefix bool) {
 		}
 		if withPrefix && seed == 0 && l.transport == "inproc" {
 			g.prefixProbes(e, l, rng)
+		}
+	}
+}
+
+// proxLanes are the lanes run against a mux that reaches the service through
+// RegisterConn (front in-process, real grpc-go back-end behind it).
+func proxLanes() []laneSpec {
+	ls := []laneSpec{
+		{"http", "httpbody", false, "uploadu", "inproc", 0, false}, {"http", "httpbody", false, "upload", "inproc", 0, false},
+		{"http", "httpbody", false, "downloadu", "inproc", 0, false}, {"http", "httpbody", false, "download", "inproc", 0, false},
+		{"grpc", "proto", false, "unary", "inproc", 0, false}, {"grpc", "proto", true, "unary", "inproc", 0, false},
+		{"grpc", "proto", false, "cs", "inproc", 0, false}, {"grpc", "proto", false, "ss", "inproc", 0, false},
+	}
+	for _, codec := range []string{"json", "proto"} {
+		for _, sh := range []string{"unary", "cs", "ss", "bidi"} {
+			ls = append(ls, laneSpec{"http", codec, false, sh, "inproc", 0, false})
+		}
+	}
+	return ls
+}
+
+// proxyMatrix runs the size probes through the RegisterConn forwarder; the
+// sizes reach further below the limit because the forwarder re-encodes every
+// message (HttpBody bodies and URL-bound fields make the protobuf form larger
+// than what the client sent).
+func (g *gen) proxyMatrix(e *env, seed int) {
+	L := e.lrecvEff()
+	sizes := map[string]int{"L-30": L - 30, "L-15": L - 15, "L-1": L - 1, "L": L, "L+1": L + 1, "10L": 10 * L}
+	order := []string{"L-30", "L-15", "L-1", "L", "L+1", "10L"}
+	for _, l := range proxLanes() {
+		rng := g.r.Rand(fmt.Sprintf("proxied/%d/%d/%d/%s/%s/%v/%s", seed, e.lrecv, e.lsend, l.proto, l.codec, l.gz, l.shape))
+		if hasReqProbe(l.shape) {
+			g.reqProbes(e, l, rng, sizes, order)
+		}
+		if hasReplyProbe(l.shape) {
+			g.replyProbes(e, l, rng)
 		}
 	}
 }
@@ -971,6 +1038,15 @@ func RunC08(r *mon.Run) {
 	}
 	g.ctl = ctl
 	defer ctl.close()
+	if g.be, err = startBackend(g.hub); err != nil {
+		r.Inconclusive("back-end start failed: " + err.Error())
+		return
+	}
+	defer g.be.Close()
+	if g.ctlProxy, err = newProxyEnv(g.hub, g.be, 1<<30, 0); err != nil {
+		r.Inconclusive("RegisterConn on the control mux failed: " + err.Error())
+		return
+	}
 
 	seeds := r.Pick(1, 5)
 	for _, Lr := range []int{64, 100, 4096, 1, 5} { // 64 first: the recorded witness of a key is the first case seen
@@ -991,13 +1067,21 @@ func RunC08(r *mon.Run) {
 				}
 			}
 			e.close()
+			pe, err := newProxyEnv(g.hub, g.be, Lr, Ls)
+			if err != nil {
+				r.Inconclusive("RegisterConn failed: " + err.Error())
+				return
+			}
+			for seed := 0; seed < seeds; seed++ {
+				g.proxyMatrix(pe, seed)
+			}
 		}
 	}
 	g.defaultConfig(true)
 
 	r.Set("max_bytes_allocated_while_serving_a_hostile_prefix", g.maxAlloc)
 	if n := g.hub.orphans(); n > 0 {
-		r.Count("handler_calls_without_case_id", n)
+		r.Count("handler_calls_without_live_case", n) // no id, or a back-end handler that started after its (refused) case had ended
 	}
 	r.Assume("the encoded size of a request is the length of the byte string the harness generated for it (canonical JSON without leading/trailing blanks, protobuf wire bytes, HttpBody data bytes); a delivered message is attributed to a sent one by proto.Equal against the reference decoding (protojson / proto.Unmarshal) of what was sent")
 	r.Assume("'refused on size grounds' = the case fails under the configured limits and succeeds on a mux that differs only by unlimited message sizes; for per-message gzip (gRPC family) 'within the limit' is read narrowly: both the inflated message and the compressed frame fit")
@@ -1020,7 +1104,21 @@ func Replay(r *mon.Run, raw json.RawMessage) {
 	}
 	g.ctl = ctl
 	defer ctl.close()
-	e, err := newEnv(g.hub, c.Lrecv, c.Lsend)
+	var e *env
+	if c.Proxied {
+		if g.be, err = startBackend(g.hub); err != nil {
+			r.Inconclusive("back-end start failed: " + err.Error())
+			return
+		}
+		defer g.be.Close()
+		if g.ctlProxy, err = newProxyEnv(g.hub, g.be, 1<<30, 0); err != nil {
+			r.Inconclusive("RegisterConn on the control mux failed: " + err.Error())
+			return
+		}
+		e, err = newProxyEnv(g.hub, g.be, c.Lrecv, c.Lsend)
+	} else {
+		e, err = newEnv(g.hub, c.Lrecv, c.Lsend)
+	}
 	if err != nil {
 		r.Inconclusive("mux construction failed: " + err.Error())
 		return
